@@ -4,6 +4,11 @@ import json, os
 ROOT = os.path.dirname(os.path.dirname(os.path.abspath(__file__)))
 props = [json.loads(l) for l in open(ROOT + "/properties.jsonl")]
 CLAIMED = {
+ "C20": dict(
+   technique="Lean 4 proof by invariant induction over arbitrary operation histories of a state-machine model of the handler-table cache; correspondence on random histories run in fresh processes",
+   text="State machine (register type / instantiate class / apply) for MultiFunction and Transformer with the per-class table cache. Invariant: every cached table is the correct table for the types present when it was built; proved preserved by every step, hence for histories of any length (C20_total: every apply dispatches to the nearest-ancestor handler; C20_history_independent; C20_cache_current). The executable model is compared with the real classes on random histories, each in a fresh forked process that really defines new Expr subclasses (4 kinds), 8 harness algorithm classes with inheritance, plus real passes and plain-function map_expr_dag on expressions containing new types. The stale-cache defect found on the pinned tree was repaired by a fix: commit; C20_old_cache_counterexample keeps the failing 3-step history.",
+   note="Trusted: Lean kernel; harness/props/c20.py; Python attribute lookup modelled as name-set membership. Assumes instances are created after the types they are applied to (an old instance keeps its own table).",
+   design="5 C20"),
  "C25": dict(
    technique="Lean 4 proof (induction over tuple length + kernel `decide` on the regenerated space table) of a hand model of sobolevspace.py; exhaustive model-vs-implementation correspondence on a finite domain",
    text="Theorems for directional spaces of every length: < is exactly the strict part of componentwise inclusion w.r.t. the declared lattice (C25_lt_iff_proper_subspace, C25_table_is_declared_lattice), irreflexive, asymmetric, transitive within a spatial dimension, > / <= / >= / membership derived consistently, == is two-sided inclusion, and where comparisons raise. The table of predefined spaces is regenerated each run (translator) and the executable model is compared with the live classes on every ordered pair of 12 predefined + all directional spaces with orders {0,1,2,3,inf} of length <=2 (quick) / <=3 (thorough): 6 outcomes per pair. The genuine defects this found on the pinned tree were repaired by a fix: commit.",
